@@ -8,7 +8,7 @@ CONSTANTS
   Decoys = {0, 2}
   HolderKeys = {"", "H1"}
   PairStrats = FALSE
-  ShapeIdx = {1, 2, 3, 4, 5, 6, 7, 8, 9}
+  ShapeIdx = {1, 2, 3, 4, 5, 6, 7, 8, 9, 10}
   PlanSet <- Plans
   PresChoices <- Pres
   WantOther = FALSE
